@@ -25,7 +25,10 @@ SOURCES = [
     '<dtml-in dl reverse><dtml-var sequence-item></dtml-in>|<dtml-in seq reverse><dtml-var sequence-item></dtml-in>',
     '',
     '<dtml-in seq start=st size=2><dtml-var sequence-item>;</dtml-in><dtml-let x="1+1"><dtml-var x></dtml-let>'
-    '<dtml-var sub><dtml-if a>A<dtml-var a><dtml-else>B</dtml-if><dtml-try><dtml-var nope><dtml-except>E</dtml-try>',
+    '<dtml-var sub><dtml-if a>A<dtml-var a><dtml-else>B</dtml-if><dtml-try><dtml-var nope><dtml-except>E</dtml-try>'
+    # faults inside block tags that are handled inside the template: nothing of the failed block may stay behind
+    '<dtml-try><dtml-let p="1" q=nope2>never</dtml-let><dtml-except>L</dtml-try><dtml-try><dtml-with o><dtml-in seq><dtml-var nope3></dtml-in>'
+    '</dtml-with><dtml-except>W</dtml-try><dtml-try><dtml-in seq sort_expr="nope4">x</dtml-in><dtml-except>S</dtml-try>',
     '<dtml-in m mapping sort=k reverse><dtml-var k></dtml-in><dtml-with o><dtml-var y></dtml-with>&dtml-a;'
     '<dtml-in m mapping reverse_expr="rv"><dtml-var k missing=-></dtml-in>'
     # what a sort specification resolves in the namespace of the render (a comparison function by name, the value of
